@@ -81,13 +81,16 @@ def main():
   loaders = {}
   junk = []
   native_junk = []
-  probes = {"gc_collect": 0, "gc_freeze": 0, "gc_threshold_set": 0,
+  probes = {"io_fault_armed": 0, "io_fault_fired": 0, "loader_retired_after_fault": 0,
+            "gc_collect": 0, "gc_freeze": 0, "gc_threshold_set": 0,
             "clock_jumps": 0, "junk_allocs": 0, "reused_loader": 0,
             "reused_loader_had_cached_module": 0, "deps_built": 0,
             "forced_imports": 0}
   sim_time = 0.0
   responses = []
   dep_files = {}
+
+  fault_fired = [False]
 
   def ensure_dep(pid, form, opts_extra):
     key = (pid, form)
@@ -145,7 +148,33 @@ def main():
              for d in p.get("deps", [])]
     if form == "pickle":
       opts_extra["use_pickled_files"] = True
+    # ---- injected storage fault: the k-th read of a simulated file during
+    # THIS analysis fails (dependencies were built before, fault-free)
+    fault = req.get("io_fault")
+    fired = fault_fired
+    fired[0] = False
+    if fault:
+      import errno as _errno
+      count = [0]
+      code = getattr(_errno, fault["errno"])
+
+      def _fault(op, path, count=count, fired=fired):
+        if not op.startswith("open:") or any(c in op for c in "wax+"):
+          return
+        count[0] += 1
+        if count[0] == fault["nth"]:
+          fired[0] = True
+          raise OSError(code, os.strerror(code), path)
+      fs.fault = _fault
+      probes["io_fault_armed"] += 1
+    try:
+      _serve_analysis(ri, req, p, src_path, form, opts_extra, items, kind, fired)
+    finally:
+      fs.fault = None
+
+  def _serve_analysis(ri, req, p, src_path, form, opts_extra, items, kind, fired):
     loader = None
+    lkey = None
     if kind == "api" and req.get("loader", "fresh") != "fresh":
       lkey = json.dumps([p["module"], p.get("deps", []), form,
                          sorted(opts_extra.items())])
@@ -227,6 +256,15 @@ def main():
         resp["dup_error"] = dup[0][:300]
     if r.get("crash"):
       resp["crash"] = r["crash"]
+    if fired[0]:
+      # the analysis met an injected I/O error: its own result is not compared,
+      # and a persistent loader that saw the error is retired (what a reused
+      # loader does after a storage fault is outside the property)
+      resp["faulted"] = True
+      probes["io_fault_fired"] += 1
+      if lkey is not None and lkey in loaders:
+        del loaders[lkey]
+        probes["loader_retired_after_fault"] += 1
     if job.get("full"):
       resp["pyi_text"] = r.get("pyi")
       resp["csv_text"] = r.get("csv")
@@ -295,7 +333,12 @@ def main():
       import traceback
       responses.append({"req": ri, "key": req["key"],
                         "crash_msg": str(ex).split("\n")[0],
-                        "crash": traceback.format_exc()[-2500:]})
+                        "crash": traceback.format_exc()[-2500:],
+                        "faulted": bool(fault_fired[0])})
+      if fault_fired[0]:
+        probes["io_fault_fired"] += 1
+        loaders.clear()
+    fault_fired[0] = False
 
   probes["clock_reads"] = clock.reads if clock else 0
   json.dump({"responses": responses, "probes": probes, "sim_time": sim_time,
